@@ -16,4 +16,5 @@ package sdk
 //@   ensures ncalls("a.Targets") >= 1 && callret("a.Targets", 1) != nil ==> err != nil
 //@   ensures ncalls("a.Targets") >= 1 && callret("a.Targets", 1) == nil && len(callret("a.Targets", 0)) == 0 ==> err != nil
 //@   ensures ncalls("g.Persist") >= 1 && callret("g.Persist", 0) != nil ==> err != nil
+//@   site call:g.Generate assert arg.Out == out && arg.Req == req && req.Language == out.Language && ncalls("a.Output") >= 1 && callarg("a.Output", 0) == out.Language && req.OutputPath == callret("a.Output", 0) && out.UsedPlugins == plugins && out.SDKPlugins == SDKPlugins
 //@   loop 2 invariant ncalls("g.Persist") >= 1 ==> callret("g.Persist", 0) == nil
